@@ -1098,6 +1098,22 @@ func (g *gen) ctorFamily(sc *scope, td *TypeDecl) Stmt {
 			return &Site{ID: g.p.NewID(), Kind: "lit.nested", Type: td, Ref: &TypeRef{Type: td}, Field: in}
 		}
 	}
+	// decoy: a function-local type that shares the name of a package-level type
+	// of this package: its literals, variables and field writes concern an
+	// unannotated type (every line must stay silent; filler lines are untagged,
+	// a diagnostic on them is a stray one)
+	if td.Kind == KStruct && sc != nil && td.Pkg == g.curPkg && !g.inXTest && g.chance("localTypeDecoy", 5) {
+		n := td.Name
+		return &Wrap{Kind: WBlock, Body: []Stmt{
+			&Filler{Text: "type " + n + " struct{ X int }"},
+			&Site{ID: g.p.NewID(), Kind: "raw", Aux: "lv := " + n + "{}"},
+			&Site{ID: g.p.NewID(), Kind: "raw", Aux: "lv.X = 1"},
+			&Site{ID: g.p.NewID(), Kind: "raw", Aux: "lv.X++"},
+			&Site{ID: g.p.NewID(), Kind: "raw", Aux: "_ = new(" + n + ")"},
+			&Filler{Text: "var lw " + n},
+			&Site{ID: g.p.NewID(), Kind: "raw", Aux: "_ = []" + n + "{lw, {}}"},
+		}}
+	}
 	// decoy: a local function named new shadows the builtin; calling it with a
 	// value of the annotated type allocates nothing
 	if td.Kind == KStruct && sc != nil && g.chance("shadowedNew", 5) {
